@@ -37,7 +37,7 @@ var targets = map[string][]string{
 		"Clients.SetLease", "Clients.Expire", "client.Uip", "client.LeasedUntil"},
 	"lib/arpping":         {"catchARPReply", "Ping"},
 	"lib/client/callback": {"dumpScriptConf", "envEntry"},
-	"lib/resolvconf":      {"Run"},
+	"lib/resolvconf":      {"Run", "update"},
 	"lib/client/dclient": {"catchReply", "sendMessage", "sendSocket", "dclient.Run", "dclient.ResumeClient", "dclient.buildNetconfig", "dclient.runStateDiscovering", "dclient.runStateSelecting",
 		"dclient.runStateBound", "dclient.runStateRenewing", "dclient.runStateRebinding", "dclient.runStatePurgeInterface", "dclient.runStateIfconfig",
 		"dclient.runStateArpCheck", "dclient.panicReset"},
